@@ -1,4 +1,5 @@
 import UmProofs.BrokerFailoverAlloc4
+import UmProofs.BrokerOrdered
 /-!
 # C06 (allocation part): chunks are only ever filled with free, healthy, unreported proxies
 
@@ -29,9 +30,18 @@ theorem free_of_pairAddrs {s : Store} {arr : List (ProxyRes × ProxyRes)}
 
 /-! ## mutators that allocate chunks -/
 
+/-- either allocator (normal mode: by hosts; ordered mode: by proxy index) hands out free,
+healthy, unreported proxies only -/
+theorem allocChunks_free {s : Store} {n first : Nat} {choice : List (String × String)} {arr : List (ProxyRes × ProxyRes)}
+    (h : allocChunks s n first choice = .ok arr) : ∀ x ∈ arr, x.1 ∈ s.freeProxies ∧ x.2 ∈ s.freeProxies := by
+  rcases Ord.allocChunks_cases h with ⟨_, h⟩ | ⟨_, h⟩
+  · exact generateFreeChunks_free h
+  · exact (Ord.generateFreeChunksOrdered_ok h).2.2.1
+
 theorem allocFor_addCluster (s : Store) (n : String) (k : Nat) (cfg : Config) (ch : List (String × String)) :
     AllocFor n s (addCluster s n k cfg ch).1 := by
   unfold addCluster
+  split; · exact (Sub.refl s).allocFor n
   split; · exact (Sub.refl s).allocFor n
   split; · exact (Sub.refl s).allocFor n
   split; · exact (Sub.refl s).allocFor n
@@ -53,7 +63,7 @@ theorem allocFor_addCluster (s : Store) (n : String) (k : Nat) (cfg : Config) (c
       rw [proxyAddrs_eq] at ha
       dsimp only at ha
       rw [proxyResourceToChunkStore_pp hchunks] at ha
-      exact free_of_pairAddrs (generateFreeChunks_free harr) ha
+      exact free_of_pairAddrs (allocChunks_free harr) ha
   all_goals exact (Sub.refl s).allocFor n
 
 theorem allocFor_autoAddNodes (s : Store) (n : String) (k : Nat) (ch : List (String × String)) :
@@ -81,7 +91,7 @@ theorem allocFor_autoAddNodes (s : Store) (n : String) (k : Nat) (ch : List (Str
     · left; rwa [proxyAddrs_eq]
     · right
       rw [proxyResourceToChunkStore_pp hchunks] at ha
-      exact ⟨hname, free_of_pairAddrs (generateFreeChunks_free harr) ha⟩
+      exact ⟨hname, free_of_pairAddrs (allocChunks_free harr) ha⟩
   all_goals exact (Sub.refl s).allocFor n
 
 theorem allocFor_autoScaleUpNodes (s : Store) (n : String) (k : Nat) (ch : List (String × String)) :
@@ -254,6 +264,9 @@ theorem replaceFailedProxy_spec (s : Store) (failed choice : String) :
       rwa [hto] at this
     dsimp only
     split
+    · -- ordered mode: takeover, a second bump, no replacement
+      exact ⟨(hsub.trans (sub_of_clusters_eq rfl)).allocOK, fun a h => by cases h⟩
+    split
     · rename_i np hnp
       have hfree : FreeIn s np.addr := by
         have hm2 := generateNewFreeProxy_free hnp
@@ -368,7 +381,7 @@ theorem allocOK_autoChangeNodeNumber (s : Store) (n : String) (k : Nat) (ch : Li
 /-- holds for the state component of every step, also when the step panics or the choice is rejected -/
 theorem allocOK_stepFull (s : Store) (op : Op) : AllocOK s (stepFull s op).1 := by
   cases op with
-  | addProxy a n0 n1 h => exact (sub_addProxy s a n0 n1 h).allocOK
+  | addProxy a n0 n1 h i => exact (sub_addProxy s a n0 n1 h i).allocOK
   | removeProxy a => exact (sub_removeProxy s a).allocOK
   | addCluster n k c => exact (allocFor_addCluster s n k defaultConfig c).allocOK
   | removeCluster n => exact (sub_removeCluster s n).allocOK
@@ -386,6 +399,9 @@ theorem allocOK_stepFull (s : Store) (op : Op) : AllocOK s (stepFull s op).1 := 
   | bumpAll e => exact (sub_forceBumpAllEpoch s e).allocOK
   | recover e => exact (sub_recoverEpoch s e).allocOK
   | addFailure a r t => exact (sub_addFailure s a r t).allocOK
+  | setOrdered =>
+    exact (sub_of_clusters_eq (s := s) (s' := s.setOrdered)
+      (by unfold Store.setOrdered; split <;> rfl)).allocOK
 
 theorem allocOK_step (s : Store) (op : Op) : AllocOK s (step s op) := by
   have h := allocOK_stepFull s op
